@@ -288,8 +288,13 @@ class Wf:
         FileState, _, _ = enums()
         return z3.And(self.dep_edge(s, f), bz(self.files[f].present), self.nodes[f].vals["detached"].v == 0, self.files[f].vals["state"].v != FileState.VOLATILE.value)
 
-    def def_need(self):
-        """need*[j]: least fixed point (K iterations over the acyclic dependency graph)."""
+    def local_need(self):
+        """One-hop definition of _implied_need using the *cached* values of the consuming steps."""
+        return self.def_need(cached=True)
+
+    def def_need(self, cached=False):
+        """need*[j]: least fixed point (K iterations over the acyclic dependency graph).
+        With cached=True: a single step of the equation, reading the consumers' cached columns."""
         _, _, Need = enums()
         K = self.K
         pool = self.ctx.pool
@@ -312,7 +317,9 @@ class Wf:
             b = z3.If(z3.And(z3.Or(exact, under), b < Need.TARGET.value), z3.IntVal(Need.TARGET.value), b)
             base.append(b)
         cur = list(base)
-        for _ in range(K):
+        if cached:
+            cur = [self.steps[j].vals["_implied_need"].v for j in range(K)]
+        for _ in range(1 if cached else K):
             nxt = []
             for j in range(K):
                 v = base[j]
